@@ -634,6 +634,393 @@ example : (MV.map [.str [97], .int 300, .str [98], .arr [.nil, .bool true, .int 
 end AnonModel.Msgpack
 
 namespace AnonModel.Msgpack
+open AnonModel.Base64 (AllLt)
+/-! ## what the reader returns is well formed -/
+
+theorem takeN_spec {n : Nat} {bs h r : List Nat} (e : takeN n bs = some (h, r)) : h.length = n ∧ bs = h ++ r := by
+  unfold takeN at e
+  split at e
+  · cases e
+  · next hl =>
+    cases e
+    refine ⟨by simp; omega, (List.take_append_drop n bs).symm⟩
+
+theorem allLt_of_append {k : Nat} {a b : List Nat} (h : AllLt k (a ++ b)) : AllLt k a ∧ AllLt k b :=
+  ⟨fun x hx => h x (List.mem_append.mpr (Or.inl hx)), fun x hx => h x (List.mem_append.mpr (Or.inr hx))⟩
+
+theorem beVal_lt : ∀ (h : List Nat), AllLt 256 h → ∀ acc, h.foldl (fun a b => a * 256 + b) acc < (acc + 1) * 256 ^ h.length
+  | [], _, acc => by simp
+  | x :: xs, hl, acc => by
+    simp only [List.foldl_cons, List.length_cons]
+    have hx : x < 256 := hl x (by simp)
+    have ih := beVal_lt xs (fun y hy => hl y (by simp [hy])) (acc * 256 + x)
+    have : (acc * 256 + x + 1) * 256 ^ xs.length ≤ ((acc + 1) * 256) * 256 ^ xs.length :=
+      Nat.mul_le_mul_right _ (by omega)
+    rw [Nat.pow_succ, Nat.mul_comm (256 ^ xs.length) 256, ← Nat.mul_assoc]
+    omega
+
+theorem readBe_spec {k : Nat} {bs r : List Nat} {n : Nat} (hb : AllLt 256 bs) (e : readBe k bs = some (n, r)) :
+    n < 256 ^ k ∧ AllLt 256 r ∧ r.length ≤ bs.length := by
+  unfold readBe at e
+  cases ht : takeN k bs with
+  | none => simp [ht] at e
+  | some p =>
+    obtain ⟨h, r'⟩ := p
+    rw [ht] at e
+    simp only [Option.some.injEq, Prod.mk.injEq] at e
+    obtain ⟨e1, e2⟩ := e
+    subst e2
+    obtain ⟨hl, hs⟩ := takeN_spec ht
+    subst hs
+    obtain ⟨h1, h2⟩ := allLt_of_append hb
+    have := beVal_lt h h1 0
+    rw [hl] at this
+    refine ⟨by rw [← e1]; simpa [beVal] using this, h2, by simp⟩
+
+theorem readRun_spec {k : Nat} {bs s r : List Nat} (hb : AllLt 256 bs) (e : readRun k bs = some (s, r)) :
+    s.length < 256 ^ k ∧ AllLt 256 r ∧ r.length ≤ bs.length := by
+  unfold readRun at e
+  cases hr : readBe k bs with
+  | none => simp [hr] at e
+  | some p =>
+    obtain ⟨n, r'⟩ := p
+    rw [hr] at e
+    simp only at e
+    obtain ⟨h1, h2, h3⟩ := readBe_spec hb hr
+    obtain ⟨hl, hs⟩ := takeN_spec e
+    subst hs
+    obtain ⟨_, h5⟩ := allLt_of_append h2
+    refine ⟨by omega, h5, by simp at h3 ⊢; omega⟩
+
+
+theorem sgn_i64 {k n : Nat} (hk : k = 1 ∨ k = 2 ∨ k = 4 ∨ k = 8) (h : n < 256 ^ k) :
+    -(9223372036854775808 : Int) ≤ sgn k n ∧ sgn k n < 18446744073709551616 := by
+  rcases hk with e | e | e | e <;> subst e <;> simp [sgn] at h ⊢ <;> split <;> omega
+
+theorem dec_decN_wf : ∀ f : Nat,
+    (∀ bs v r, AllLt 256 bs → dec f bs = some (v, r) → v.WF ∧ AllLt 256 r) ∧
+    (∀ n bs xs r, AllLt 256 bs → decN f n bs = some (xs, r) → WFs xs ∧ xs.length = n ∧ AllLt 256 r) := by
+  intro f
+  induction f with
+  | zero =>
+    refine ⟨fun bs v r _ h => by simp [dec] at h, fun n bs xs r hb h => ?_⟩
+    cases n with
+    | zero => simp only [decN, Option.some.injEq, Prod.mk.injEq] at h; obtain ⟨h1, h2⟩ := h; subst h1; subst h2; exact ⟨trivial, rfl, hb⟩
+    | succ n => simp [decN] at h
+  | succ f ih =>
+    obtain ⟨ihd, ihn⟩ := ih
+    refine ⟨?_, ?_⟩
+    · intro bs v r hb h
+      cases bs with
+      | nil => simp [dec] at h
+      | cons b rest =>
+        have hb256 : b < 256 := hb b (by simp)
+        have hrest : AllLt 256 rest := fun x hx => hb x (by simp [hx])
+        by_cases c1 : b < 128
+        · rw [dec_pfix c1] at h
+          simp only [Option.some.injEq, Prod.mk.injEq] at h; obtain ⟨h1, h2⟩ := h; subst h1; subst h2
+          exact ⟨by simp only [MV.WF]; omega, hrest⟩
+        by_cases c2 : b < 144
+        · have e : b = 0x80 + (b - 128) := by omega
+          rw [e, dec_fixmap (by omega)] at h
+          cases hd : decN f (2 * (b - 128)) rest with
+          | none => simp [hd] at h
+          | some p =>
+            obtain ⟨xs, r'⟩ := p
+            rw [hd] at h
+            simp only [Option.some.injEq, Prod.mk.injEq] at h; obtain ⟨h1, h2⟩ := h; subst h1; subst h2
+            obtain ⟨w1, w2, w3⟩ := ihn _ _ _ _ hrest hd
+            exact ⟨by simp only [MV.WF]; exact ⟨by omega, by omega, w1⟩, w3⟩
+        by_cases c3 : b < 160
+        · have e : b = 0x90 + (b - 144) := by omega
+          rw [e, dec_fixarr (by omega)] at h
+          cases hd : decN f (b - 144) rest with
+          | none => simp [hd] at h
+          | some p =>
+            obtain ⟨xs, r'⟩ := p
+            rw [hd] at h
+            simp only [Option.some.injEq, Prod.mk.injEq] at h; obtain ⟨h1, h2⟩ := h; subst h1; subst h2
+            obtain ⟨w1, w2, w3⟩ := ihn _ _ _ _ hrest hd
+            exact ⟨by simp only [MV.WF]; exact ⟨by omega, w1⟩, w3⟩
+        by_cases c4 : b < 192
+        · have e : b = 0xa0 + (b - 160) := by omega
+          rw [e, dec_fixstr (by omega)] at h
+          cases hd : takeN (b - 160) rest with
+          | none => simp [hd] at h
+          | some p =>
+            obtain ⟨s, r'⟩ := p
+            rw [hd] at h
+            simp only [Option.some.injEq, Prod.mk.injEq] at h; obtain ⟨h1, h2⟩ := h; subst h1; subst h2
+            obtain ⟨w1, w2⟩ := takeN_spec hd
+            subst w2
+            exact ⟨by simp only [MV.WF]; omega, (allLt_of_append hrest).2⟩
+        by_cases c5 : 224 ≤ b
+        · rw [dec_nfix c5 hb256] at h
+          simp only [Option.some.injEq, Prod.mk.injEq] at h; obtain ⟨h1, h2⟩ := h; subst h1; subst h2
+          exact ⟨by simp only [MV.WF]; omega, hrest⟩
+        have hcases : b = 192 ∨ b = 193 ∨ b = 194 ∨ b = 195 ∨ b = 196 ∨ b = 197 ∨ b = 198 ∨ b = 199 ∨ b = 200 ∨ b = 201 ∨ b = 202 ∨ b = 203 ∨ b = 204 ∨ b = 205 ∨ b = 206 ∨ b = 207 ∨ b = 208 ∨ b = 209 ∨ b = 210 ∨ b = 211 ∨ b = 212 ∨ b = 213 ∨ b = 214 ∨ b = 215 ∨ b = 216 ∨ b = 217 ∨ b = 218 ∨ b = 219 ∨ b = 220 ∨ b = 221 ∨ b = 222 ∨ b = 223 := by omega
+        rcases hcases with e | e | e | e | e | e | e | e | e | e | e | e | e | e | e | e | e | e | e | e | e | e | e | e | e | e | e | e | e | e | e | e
+        · subst e; rw [dec_c0] at h; simp only [Option.some.injEq, Prod.mk.injEq] at h; obtain ⟨h1, h2⟩ := h; subst h1; subst h2; exact ⟨by simp [MV.WF], hrest⟩
+        · subst e; simp [dec] at h
+        · subst e; rw [dec_c2] at h; simp only [Option.some.injEq, Prod.mk.injEq] at h; obtain ⟨h1, h2⟩ := h; subst h1; subst h2; exact ⟨by simp [MV.WF], hrest⟩
+        · subst e; rw [dec_c3] at h; simp only [Option.some.injEq, Prod.mk.injEq] at h; obtain ⟨h1, h2⟩ := h; subst h1; subst h2; exact ⟨by simp [MV.WF], hrest⟩
+        · subst e; rw [dec_c4] at h
+          cases hd : readRun 1 rest with
+          | none => simp [hd] at h
+          | some p =>
+            obtain ⟨s, r'⟩ := p
+            rw [hd] at h
+            simp only [Option.some.injEq, Prod.mk.injEq] at h; obtain ⟨h1, h2⟩ := h; subst h1; subst h2
+            obtain ⟨w1, w2, _⟩ := readRun_spec hrest hd
+            simp at w1
+            exact ⟨by simp only [MV.WF]; omega, w2⟩
+        · subst e; rw [dec_c5] at h
+          cases hd : readRun 2 rest with
+          | none => simp [hd] at h
+          | some p =>
+            obtain ⟨s, r'⟩ := p
+            rw [hd] at h
+            simp only [Option.some.injEq, Prod.mk.injEq] at h; obtain ⟨h1, h2⟩ := h; subst h1; subst h2
+            obtain ⟨w1, w2, _⟩ := readRun_spec hrest hd
+            simp at w1
+            exact ⟨by simp only [MV.WF]; omega, w2⟩
+        · subst e; rw [dec_c6] at h
+          cases hd : readRun 4 rest with
+          | none => simp [hd] at h
+          | some p =>
+            obtain ⟨s, r'⟩ := p
+            rw [hd] at h
+            simp only [Option.some.injEq, Prod.mk.injEq] at h; obtain ⟨h1, h2⟩ := h; subst h1; subst h2
+            obtain ⟨w1, w2, _⟩ := readRun_spec hrest hd
+            simp at w1
+            exact ⟨by simp only [MV.WF]; omega, w2⟩
+        · subst e; simp [dec] at h
+        · subst e; simp [dec] at h
+        · subst e; simp [dec] at h
+        · subst e; simp [dec] at h
+        · subst e; simp [dec] at h
+        · subst e; rw [dec_cc] at h
+          cases hd : readBe 1 rest with
+          | none => simp [hd] at h
+          | some p =>
+            obtain ⟨n, r'⟩ := p
+            rw [hd] at h
+            simp only [Option.some.injEq, Prod.mk.injEq] at h; obtain ⟨h1, h2⟩ := h; subst h1; subst h2
+            obtain ⟨w1, w2, _⟩ := readBe_spec hrest hd
+            simp at w1
+            exact ⟨by simp only [MV.WF]; omega, w2⟩
+        · subst e; rw [dec_cd] at h
+          cases hd : readBe 2 rest with
+          | none => simp [hd] at h
+          | some p =>
+            obtain ⟨n, r'⟩ := p
+            rw [hd] at h
+            simp only [Option.some.injEq, Prod.mk.injEq] at h; obtain ⟨h1, h2⟩ := h; subst h1; subst h2
+            obtain ⟨w1, w2, _⟩ := readBe_spec hrest hd
+            simp at w1
+            exact ⟨by simp only [MV.WF]; omega, w2⟩
+        · subst e; rw [dec_ce] at h
+          cases hd : readBe 4 rest with
+          | none => simp [hd] at h
+          | some p =>
+            obtain ⟨n, r'⟩ := p
+            rw [hd] at h
+            simp only [Option.some.injEq, Prod.mk.injEq] at h; obtain ⟨h1, h2⟩ := h; subst h1; subst h2
+            obtain ⟨w1, w2, _⟩ := readBe_spec hrest hd
+            simp at w1
+            exact ⟨by simp only [MV.WF]; omega, w2⟩
+        · subst e; rw [dec_cf] at h
+          cases hd : readBe 8 rest with
+          | none => simp [hd] at h
+          | some p =>
+            obtain ⟨n, r'⟩ := p
+            rw [hd] at h
+            simp only [Option.some.injEq, Prod.mk.injEq] at h; obtain ⟨h1, h2⟩ := h; subst h1; subst h2
+            obtain ⟨w1, w2, _⟩ := readBe_spec hrest hd
+            simp at w1
+            exact ⟨by simp only [MV.WF]; omega, w2⟩
+        · subst e; rw [dec_d0] at h
+          cases hd : readBe 1 rest with
+          | none => simp [hd] at h
+          | some p =>
+            obtain ⟨n, r'⟩ := p
+            rw [hd] at h
+            simp only [Option.some.injEq, Prod.mk.injEq] at h; obtain ⟨h1, h2⟩ := h; subst h1; subst h2
+            obtain ⟨w1, w2, _⟩ := readBe_spec hrest hd
+            exact ⟨by simp only [MV.WF]; exact sgn_i64 (by decide) w1, w2⟩
+        · subst e; rw [dec_d1] at h
+          cases hd : readBe 2 rest with
+          | none => simp [hd] at h
+          | some p =>
+            obtain ⟨n, r'⟩ := p
+            rw [hd] at h
+            simp only [Option.some.injEq, Prod.mk.injEq] at h; obtain ⟨h1, h2⟩ := h; subst h1; subst h2
+            obtain ⟨w1, w2, _⟩ := readBe_spec hrest hd
+            exact ⟨by simp only [MV.WF]; exact sgn_i64 (by decide) w1, w2⟩
+        · subst e; rw [dec_d2] at h
+          cases hd : readBe 4 rest with
+          | none => simp [hd] at h
+          | some p =>
+            obtain ⟨n, r'⟩ := p
+            rw [hd] at h
+            simp only [Option.some.injEq, Prod.mk.injEq] at h; obtain ⟨h1, h2⟩ := h; subst h1; subst h2
+            obtain ⟨w1, w2, _⟩ := readBe_spec hrest hd
+            exact ⟨by simp only [MV.WF]; exact sgn_i64 (by decide) w1, w2⟩
+        · subst e; rw [dec_d3] at h
+          cases hd : readBe 8 rest with
+          | none => simp [hd] at h
+          | some p =>
+            obtain ⟨n, r'⟩ := p
+            rw [hd] at h
+            simp only [Option.some.injEq, Prod.mk.injEq] at h; obtain ⟨h1, h2⟩ := h; subst h1; subst h2
+            obtain ⟨w1, w2, _⟩ := readBe_spec hrest hd
+            exact ⟨by simp only [MV.WF]; exact sgn_i64 (by decide) w1, w2⟩
+        · subst e; simp [dec] at h
+        · subst e; simp [dec] at h
+        · subst e; simp [dec] at h
+        · subst e; simp [dec] at h
+        · subst e; simp [dec] at h
+        · subst e; rw [dec_d9] at h
+          cases hd : readRun 1 rest with
+          | none => simp [hd] at h
+          | some p =>
+            obtain ⟨s, r'⟩ := p
+            rw [hd] at h
+            simp only [Option.some.injEq, Prod.mk.injEq] at h; obtain ⟨h1, h2⟩ := h; subst h1; subst h2
+            obtain ⟨w1, w2, _⟩ := readRun_spec hrest hd
+            simp at w1
+            exact ⟨by simp only [MV.WF]; omega, w2⟩
+        · subst e; rw [dec_da] at h
+          cases hd : readRun 2 rest with
+          | none => simp [hd] at h
+          | some p =>
+            obtain ⟨s, r'⟩ := p
+            rw [hd] at h
+            simp only [Option.some.injEq, Prod.mk.injEq] at h; obtain ⟨h1, h2⟩ := h; subst h1; subst h2
+            obtain ⟨w1, w2, _⟩ := readRun_spec hrest hd
+            simp at w1
+            exact ⟨by simp only [MV.WF]; omega, w2⟩
+        · subst e; rw [dec_db] at h
+          cases hd : readRun 4 rest with
+          | none => simp [hd] at h
+          | some p =>
+            obtain ⟨s, r'⟩ := p
+            rw [hd] at h
+            simp only [Option.some.injEq, Prod.mk.injEq] at h; obtain ⟨h1, h2⟩ := h; subst h1; subst h2
+            obtain ⟨w1, w2, _⟩ := readRun_spec hrest hd
+            simp at w1
+            exact ⟨by simp only [MV.WF]; omega, w2⟩
+        · subst e; rw [dec_dc] at h
+          cases hd : readBe 2 rest with
+          | none => simp [hd] at h
+          | some p =>
+            obtain ⟨n, r'⟩ := p
+            rw [hd] at h
+            simp only at h
+            obtain ⟨w1, w2, _⟩ := readBe_spec hrest hd
+            simp at w1
+            cases hq : decN f n r' with
+            | none => simp [hq] at h
+            | some q =>
+              obtain ⟨xs, r2⟩ := q
+              rw [hq] at h
+              simp only [Option.some.injEq, Prod.mk.injEq] at h; obtain ⟨h1, h2⟩ := h; subst h1; subst h2
+              obtain ⟨v1, v2, v3⟩ := ihn _ _ _ _ w2 hq
+              exact ⟨by simp only [MV.WF]; exact ⟨by omega, v1⟩, v3⟩
+        · subst e; rw [dec_dd] at h
+          cases hd : readBe 4 rest with
+          | none => simp [hd] at h
+          | some p =>
+            obtain ⟨n, r'⟩ := p
+            rw [hd] at h
+            simp only at h
+            obtain ⟨w1, w2, _⟩ := readBe_spec hrest hd
+            simp at w1
+            cases hq : decN f n r' with
+            | none => simp [hq] at h
+            | some q =>
+              obtain ⟨xs, r2⟩ := q
+              rw [hq] at h
+              simp only [Option.some.injEq, Prod.mk.injEq] at h; obtain ⟨h1, h2⟩ := h; subst h1; subst h2
+              obtain ⟨v1, v2, v3⟩ := ihn _ _ _ _ w2 hq
+              exact ⟨by simp only [MV.WF]; exact ⟨by omega, v1⟩, v3⟩
+        · subst e; rw [dec_de] at h
+          cases hd : readBe 2 rest with
+          | none => simp [hd] at h
+          | some p =>
+            obtain ⟨n, r'⟩ := p
+            rw [hd] at h
+            simp only at h
+            obtain ⟨w1, w2, _⟩ := readBe_spec hrest hd
+            simp at w1
+            cases hq : decN f (2 * n) r' with
+            | none => simp [hq] at h
+            | some q =>
+              obtain ⟨xs, r2⟩ := q
+              rw [hq] at h
+              simp only [Option.some.injEq, Prod.mk.injEq] at h; obtain ⟨h1, h2⟩ := h; subst h1; subst h2
+              obtain ⟨v1, v2, v3⟩ := ihn _ _ _ _ w2 hq
+              exact ⟨by simp only [MV.WF]; exact ⟨by omega, by omega, v1⟩, v3⟩
+        · subst e; rw [dec_df] at h
+          cases hd : readBe 4 rest with
+          | none => simp [hd] at h
+          | some p =>
+            obtain ⟨n, r'⟩ := p
+            rw [hd] at h
+            simp only at h
+            obtain ⟨w1, w2, _⟩ := readBe_spec hrest hd
+            simp at w1
+            cases hq : decN f (2 * n) r' with
+            | none => simp [hq] at h
+            | some q =>
+              obtain ⟨xs, r2⟩ := q
+              rw [hq] at h
+              simp only [Option.some.injEq, Prod.mk.injEq] at h; obtain ⟨h1, h2⟩ := h; subst h1; subst h2
+              obtain ⟨v1, v2, v3⟩ := ihn _ _ _ _ w2 hq
+              exact ⟨by simp only [MV.WF]; exact ⟨by omega, by omega, v1⟩, v3⟩
+    · intro n bs xs r hb h
+      cases n with
+      | zero => simp only [decN, Option.some.injEq, Prod.mk.injEq] at h; obtain ⟨h1, h2⟩ := h; subst h1; subst h2; exact ⟨trivial, rfl, hb⟩
+      | succ n =>
+        simp only [decN] at h
+        cases hd : dec f bs with
+        | none => simp [hd] at h
+        | some p =>
+          obtain ⟨x, r1⟩ := p
+          rw [hd] at h
+          simp only at h
+          obtain ⟨wx, wr1⟩ := ihd _ _ _ hb hd
+          cases hn : decN f n r1 with
+          | none => simp [hn] at h
+          | some q =>
+            obtain ⟨ys, r2⟩ := q
+            rw [hn] at h
+            simp only [Option.some.injEq, Prod.mk.injEq] at h; obtain ⟨h1, h2⟩ := h; subst h1; subst h2
+            obtain ⟨w1, w2, w3⟩ := ihn _ _ _ _ wr1 hn
+            exact ⟨⟨wx, w1⟩, by simp [w2], w3⟩
+
+
+/-- **everything the reader returns lies in the fragment the writer handles** (integers of `i64 ∪ u64`, lengths below 2^32, maps
+as pairs), for every byte string, accepted in whatever form -/
+theorem C15_mp_reader_output_wf (bs : List Nat) (hb : AllLt 256 bs) (v : MV) (h : decode bs = some v) : v.WF := by
+  unfold decode at h
+  cases hd : dec (2 * bs.length + 2) bs with
+  | none => simp [hd] at h
+  | some p =>
+    obtain ⟨v', r⟩ := p
+    rw [hd] at h
+    simp only [Option.map_some, Option.some.injEq] at h
+    subst h
+    exact ((dec_decN_wf _).1 bs v' r hb hd).1
+
+/-- **so what was read can be written again and is then read back as the same value**: serialising the deserialised object and
+deserialising once more changes nothing, also when the bytes received were in a longer form or had bytes after them -/
+theorem C15_mp_reread (bs : List Nat) (hb : AllLt 256 bs) (v : MV) (h : decode bs = some v) : decode (enc v) = some v := by
+  have := C15_mp_decode_encode v (C15_mp_reader_output_wf bs hb v h) []
+  rwa [List.append_nil] at this
+end AnonModel.Msgpack
+
+namespace AnonModel.Msgpack
 /-! non-vacuity of the typed hypotheses: a map with the one required member of `PresentationProofValue` -/
 example : payloadKind (.map [.str (key "aggregated"), .nil]) = some 3 := by
   simp [payloadKind, hasKeys, field, key]
